@@ -189,7 +189,7 @@ def shard(args):
                 try:
                     _k, text = data.draw(gen.message(sub if sub is carried_here else state, self.ro_id,
                                                      kinds=kinds, faults='none', rich=False, mid=self.mid,
-                                                     degenerate=False, dup_inserts=False))
+                                                     degenerate=False, dup_inserts=True))
                 except (IndexError, KeyError, ValueError, AssertionError, TypeError, AttributeError):
                     col.excluded['generator could not draw a message for the reached state'] += 1
                     return
